@@ -433,22 +433,22 @@ class Diagnostics:
                 terms += abs(w)
         out = []
         e = sim.energy()
-        if abs(mp.mpf(e) - (K + W)) > (8 + 2 * n * n) * U * terms:
+        if not (abs(mp.mpf(e) - (K + W)) <= (8 + 2 * n * n) * U * terms):
             out.append(("energy", "energy() = %r, definition gives %s" % (e, mp.nstr(K + W, 20))))
         L = sim.angular_momentum()
         for k, (a, b) in enumerate(((1, 2), (2, 0), (0, 1))):
             ref = sum(m * (s[a] * s[b + 3] - s[b] * s[a + 3]) for m, s in P)
             sc = sum(abs(m) * (abs(s[a] * s[b + 3]) + abs(s[b] * s[a + 3])) for m, s in P)
-            if abs(mp.mpf(L[k]) - ref) > (8 + 2 * n) * U * sc:
+            if not (abs(mp.mpf(L[k]) - ref) <= (8 + 2 * n) * U * sc):
                 out.append(("angular_momentum", "angular_momentum()[%d] = %r, definition gives %s" % (k, L[k], mp.nstr(ref, 20))))
         c = sim.com()
         M = sum(m for m, s in P)
-        if abs(mp.mpf(c.m) - M) > 2 * n * U * M:
+        if not (abs(mp.mpf(c.m) - M) <= 2 * n * U * M):
             out.append(("com", "com().m = %r, total mass %s" % (c.m, mp.nstr(M, 20))))
         for k, nm in enumerate(("x", "y", "z", "vx", "vy", "vz")):
             ref = sum(m * s[k] for m, s in P) / M
             sc = sum(abs(m * s[k]) for m, s in P) / M
-            if abs(mp.mpf(getattr(c, nm)) - ref) > (8 + 4 * n) * U * sc:
+            if not (abs(mp.mpf(getattr(c, nm)) - ref) <= (8 + 4 * n) * U * sc):
                 out.append(("com", "com().%s = %r, definition gives %s" % (nm, getattr(c, nm), mp.nstr(ref, 20))))
         # sub-ranges used for Jacobi centres
         for last in range(1, n + 1):
@@ -458,7 +458,7 @@ class Diagnostics:
                 continue
             ref = sum(P[i][0] * P[i][1][0] for i in range(last)) / Mr
             sc = sum(abs(P[i][0] * P[i][1][0]) for i in range(last)) / Mr
-            if abs(mp.mpf(cr.x) - ref) > (8 + 4 * n) * U * sc:
+            if not (abs(mp.mpf(cr.x) - ref) <= (8 + 4 * n) * U * sc):
                 out.append(("com-range", "com(first=0,last=%d).x = %r, definition gives %s" % (last, cr.x, mp.nstr(ref, 20))))
         return out
 
@@ -551,7 +551,7 @@ def run(ctx):
                     integ, o, sh, v["worst"]["E"], "".join(order), min(es), "".join(lst[es.index(min(es))][0])), {"order": list(order), "integrator": [integ, o], "shift": sh})
                 continue
             d = max(abs(a - b) for pa, pb in zip(v["final"], ref["final"]) for a, b in zip(pa[1:], pb[1:])) if len(v["final"]) == len(ref["final"]) else float("inf")
-            if d > (1e-4 if integ == "bs" else 1e-6):
+            if not (d <= (1e-4 if integ == "bs" else 1e-6)):
                 ctx.violation("merge-order-dependence:%s" % integ, "%s%s shift %g: final positions differ by %.3g between insertion orders %s and %s" % (
                     integ, o, sh, d, "".join(order), "".join(ref_order)), {"order": list(order), "integrator": [integ, o], "shift": sh})
     merged_steps = sorted({v["merged_at"] for lst in groups.values() for _, v in lst if v["merged_at"] is not None})
